@@ -56,9 +56,16 @@ def run(ctx: Ctx) -> None:
                         continue
                     fc = {k: (v, rng.choice([None, f"note {k}", ""])) for k, v in env.items()}
                 cases.append({"e": e, "env": env, "fc": fc, "mode": mode})
+    last_e, tree, reuse, before = None, None, False, []
     for c in cases:
         e = c["e"]
-        c["impl"] = E.eval_fc_tree(T.to_lark(e), c["fc"])
+        if e is not last_e:
+            # callers may parse once and evaluate many times: for half of the expressions ONE tree object is evaluated under all its assignments
+            last_e, tree, reuse, before = e, T.to_lark(e), rng.random() < 0.5, []
+            ctx.count("tree_object", "reused" if reuse else "fresh")
+        c["same_tree_object_evaluated_before_under"] = list(before) if reuse else []
+        c["impl"] = E.eval_fc_tree(tree if reuse else T.to_lark(e), c["fc"])
+        before.append(c["fc"])
         ctx.case((T.to_json(e), sorted(c["fc"].items(), key=str), c["mode"]), nontrivial=not T.is_leaf(e))
         ctx.count("mode", c["mode"])
         i = c["impl"]
@@ -69,7 +76,8 @@ def run(ctx: Ctx) -> None:
         want = bool_sem(e, c["env"])
         ctx.count("value", str(want))
         if i["ok"] != want:
-            ctx.violation("value differs from the Boolean value of the expression", {"tree": T.to_json(e), "string": s, "fc": c["fc"], "expected": want, "got": i["ok"]},
+            ctx.violation("value differs from the Boolean value of the expression", {"tree": T.to_json(e), "string": s, "fc": c["fc"], "expected": want, "got": i["ok"],
+                                                                                                  "same_tree_object_evaluated_before_under": c["same_tree_object_evaluated_before_under"][-3:]},
                           key=f"value:{T.to_json(e)}:{sorted(c['env'].items())}")
         if c["mode"] == "premise" and ((i["msg"] is not None) != (not i["ok"])):
             ctx.violation("error message present iff unfulfilled is broken", {"tree": T.to_json(e), "string": s, "fc": c["fc"], "ok": i["ok"], "msg": i["msg"]},
@@ -140,7 +148,10 @@ def replay(ctx: Ctx, data) -> int:
     r = data["replay"]
     e = T.from_json(r["tree"])
     fc = {k: tuple(v) for k, v in r["fc"].items()}
-    i = E.eval_fc_tree(T.to_lark(e), fc)
+    tree = T.to_lark(e)
+    for earlier in r.get("same_tree_object_evaluated_before_under", []):
+        E.eval_fc_tree(tree, {k: tuple(v) for k, v in earlier.items()})
+    i = E.eval_fc_tree(tree, fc)
     want = bool_sem(e, {k: v[0] for k, v in fc.items()})
     print("impl:", i, "boolean value:", want)
     return 0 if i.get("ok") == want else 1
